@@ -311,6 +311,19 @@ func (c *Ctx) stateTranslation(st *ssa.Store, resV ssa.Value, batch bool, succ, 
 	if !prog.InModule(f) || f.Blocks == nil {
 		return "the translation function is outside the module"
 	}
+	// a validation verdict: a module function every return of which is a constant state other than SUCCEEDED
+	if rets := an.Returns(f); len(rets) > 0 && f.Signature.Results().Len() == 1 {
+		never := true
+		for _, r := range rets {
+			k, isConst := an.Result(r, 0).(*ssa.Const)
+			if !isConst || an.IsConstInt(k, pbSucc) {
+				never = false
+			}
+		}
+		if never {
+			return ""
+		}
+	}
 	ai := -1
 	for i, a := range call.Common().Args {
 		if !batch && a == resV {
